@@ -128,6 +128,10 @@ class Adapter(EnvAdapter):
                 c("rw3a3_t7", "random_walk", 3, 3, 7, 72, 2, probe_cap=10),
                 # more than 42 agents: the grid codes 1 + 3i, 2 + 3i, 3 + 3i pass 127 (and, in the thorough tier, 255)
                 c("un14a44_t5", "uniform", 14, 44, 5, 2, 8, probe_cap=8, probe_every=2, policies=["greedy", "masked", "stall"]),
+                # crowded boards played to the end well before the time limit: every agent connected or blocked (team sizes at which
+                # a float32 mean of ones is not exactly one: 41, 47)
+                c("un12a41_t40", "uniform", 12, 41, 40, 1, 16, probe_cap=4, probe_every=8, policies=["masked"]),
+                c("un12a47_t40", "uniform", 12, 47, 40, 1, 16, probe_cap=4, probe_every=8, policies=["masked"]),
                 # DenseRewardFn with non-default parameters (also given as Python ints)
                 dict(c("rw4a3_t7_rw", "random_walk", 4, 3, 7, 6, 12, probe_cap=36), ctor=dict(generator="random_walk", grid_size=4,
                      num_agents=3, time_limit=7, reward=(2.5, -0.25))),
@@ -158,6 +162,8 @@ class Adapter(EnvAdapter):
         out.append(c("rw12a12_t7", "random_walk", 12, 12, 7, 4, 11, probe_cap=72, probe_every=2))
         out.append(c("un14a44_t5", "uniform", 14, 44, 5, 4, 8, probe_cap=12, probe_every=2, policies=["greedy", "masked", "stall"]))
         out.append(c("un20a90_t5", "uniform", 20, 90, 5, 2, 8, probe_cap=8, probe_every=3, policies=["greedy", "masked"]))
+        for (g, n) in ((12, 41), (12, 47), (13, 55), (14, 61), (16, 82), (16, 83), (17, 94), (17, 97)):
+            out.append(c(f"un{g}a{n}_t40", "uniform", g, n, 40, 2, 20, probe_cap=4, probe_every=10, policies=["masked", "greedy"]))
         out.append(dict(c("rw4a3_t7_rw", "random_walk", 4, 3, 7, 18, 12, probe_cap=36), ctor=dict(generator="random_walk", grid_size=4,
                         num_agents=3, time_limit=7, reward=(2.5, -0.25))))
         out.append(dict(c("un4a2_t7_rwint", "uniform", 4, 2, 7, 18, 12, probe_cap=25), ctor=dict(generator="uniform", grid_size=4,
